@@ -86,6 +86,10 @@ def ev_N12():
         D("Q", ["A01", "A01"], [0, 30], compositions=[{"x": 1.0}, {"y": 1.0}]),
         D("Q", {"$w2d": ["Q", 0, 3, 0, 2]}, 7.5, compositions=[{"x": 1.0}, {"y": 1.0}, {"a": 1.0}, {"x": 0.25, "a": 0.75}, {"z": 1.0}, {"x": 1.0}]),
         D("T", ["B02"], 30, compositions=[{"x": 1.0}]),
+        # refused additions of known composition (overflow at the first / second well): nothing may be mixed in
+        D("P", ["A01"], 350, compositions=[{"x": 1.0}]),
+        D("P", ["B01", "A01"], [30, 350], compositions=[{"y": 1.0}, {"x": 1.0}]),
+        ["add", "Q", ["B01", "B01"], [30, 290], {"compositions": [{"x": 1.0}, {"y": 1.0}]}],
         A("P", {"$w2d": ["P", 0, 2, 0, 2]}, [[1.5, 2.5], [3.5, 4.5]]),
         A("T", ["A01", "B01"], 30),
         Rm("Q", ["A01", "B01"], [30, 7.5]),
@@ -207,6 +211,25 @@ class Harness(cm.BaseA):
         V += self.invariants(W)
         if out != "ok":
             res["expand"] = False
+            if ev[0] in ("dispense", "add") and (ev[5] if ev[0] == "dispense" else ev[4]).get("compositions"):
+                # only the pairs before the refused one may have had an effect
+                lw, wells, vols, kw = (ev[2], ev[3], ev[4], ev[5]) if ev[0] == "dispense" else (ev[1], ev[2], ev[3], ev[4])
+                g = cm.geos(config)[lw]
+                robot = W["robot"]
+                for (cell, v), comp in zip(cm.pairs_wells_vols(config, lw, wells, vols), kw["compositions"]):
+                    if robot.vol[lw][cell] + v > Fraction(g.vmax):
+                        break
+                    robot._put(lw, cell, v, {k: Fraction(f) * v for k, f in comp.items()})
+                lwo = W["lw"][lw]
+                for cell, rv in robot.vol[lw].items():
+                    if rv <= 0 or Fraction(float(lwo.volumes[cell])) != rv:
+                        continue
+                    mix = robot.mix[lw][cell]
+                    for k in set(mix) | set(lwo.composition):
+                        e = float(mix.get(k, 0) / rv)
+                        got = float(lwo.composition[k][cell]) if k in lwo.composition else 0.0
+                        if not abs(got - e) <= 1e-9:
+                            V.append(("C05/mixture", f"after the refused {ev[0]} ({type(exc).__name__}) {lw}.{well_id(*cell)} '{k}': exact {e} vs reported {got}"))
             return res
         robot = W["robot"]
         robot.tip = None
